@@ -22,7 +22,7 @@ BASE_ORG = 0x2000
 LOW_ORG = 1                      # second base origin: the bottom of memory, where label-n can fall below 0
 LOW_SHIFTS = [-1, 1, 0x4F]
 RENAMES = [["Q", "ZZ9", "LOOP1", "a1"], ["SU", "XS", "PCX", "DPY"], ["XS", "SU", "a1", "Q"], ["PCRL", "AB", "DD", "CCX"]]
-FORMATS = ["space1", "tabs", "space8", "nocomment", "comment.x", "comment.hostile", "comment.wide", "mnem.lower", "mnem.mixed", "trailing.ws"]
+FORMATS = ["space1", "tabs", "space8", "nocomment", "comment.x", "comment.hostile", "comment.wide", "mnem.lower", "mnem.mixed", "trailing.ws", "crlf", "eof.no-newline"]
 ABS_TAGS = {"ext.lbl", "ext.lbl.p", "ext.lbl+1", "imm.lbl", "imm.lbl.p", "extind.lbl", "idx.lbl", "idx.lbl.p", "ind.lbl", "imm.lbl+1",
             "idx.lbl+1", "extind.lbl+1"}
 LABEL_RE = re.compile(r"\bL(\d)\b")
@@ -132,6 +132,8 @@ def reformat(line, how):
         s = "{} {} {} ; {}".format(label, mnem.lower(), op, cm)
     elif how == "mnem.mixed":
         s = "{} {} {} ; {}".format(label, "".join(c.lower() if i % 2 else c for i, c in enumerate(mnem)), op, cm)
+    elif how == "crlf":
+        s = "{} {} {} ; {}\r".format(label, mnem, op, cm)
     elif how == "trailing.ws":
         s = "{} {} {}   \t ".format(label, mnem, op)
     else:
@@ -316,8 +318,13 @@ def check_case(case):
         elif {mp.get(k, k): v for k, v in ref["symbols"].items()} != out["symbols"]:
             bad("renaming labels changes symbol values", ref["symbols"], out["symbols"])
     elif tr == "format":
-        new = [reformat(l, arg) for l in lines0]
-        out = common.assemble_confirm([base[0]] + new)
+        if arg == "eof.no-newline":       # the file ends without a line end (what readlines() gives for such a file)
+            raw = [ln + "\n" for ln in [base[0]] + lines0]
+            raw[-1] = raw[-1].rstrip("\n").split(";")[0].rstrip() if fields(lines0[-1])[1].upper() != "FCC" else raw[-1].rstrip("\n")
+            out = common.assemble_confirm(raw, raw=True)
+        else:
+            new = [reformat(l, arg) for l in lines0]
+            out = common.assemble_confirm([base[0]] + new)
         if out["kind"] != "OK":
             bad("reformatted program rejected", "accepted", common.outcome_brief(out))
         elif out["image"] != ref["image"] or out["addrs"] != ref["addrs"] or out["symbols"] != ref["symbols"]:
